@@ -4,12 +4,12 @@ CHECK = {
         {
             "pkg": ".", "files": ["root/c12_test.go"], "run": "^TestC12_Schedules",
             "quick": {"scale": 1, "shards": 1, "timeout": 600},
-            "thorough": {"scale": 10, "shards": 8, "timeout": 1500},
+            "thorough": {"scale": 20, "shards": 8, "timeout": 1500},
         },
         {
             "pkg": ".", "files": ["root/c12_test.go"], "run": "^TestC12_Parallel", "race": True,
             "quick": {"scale": 1, "shards": 1, "timeout": 600},
-            "thorough": {"scale": 6, "shards": 6, "timeout": 1500},
+            "thorough": {"scale": 15, "shards": 6, "timeout": 1500},
         },
     ],
     "engine": "E-sched",
